@@ -145,6 +145,8 @@ def run(idx: ProgramIndex, rep: Report, tier: str):
     initialize_bounds(idx, rep)
     prior_closures(idx, rep)
     sampling_and_writes(idx, rep)
+    composite_prior_terms(idx, rep)
+    setters_convert_numbers(idx, rep)
 
 
 # ---- C17-1 / C17-2 -------------------------------------------------------------------------------------------------
@@ -828,3 +830,46 @@ def _is_value_or_conversion(e: ast.AST, val: str) -> bool:
         if isinstance(c, ast.Call) and (chain(c.func) or "").split(".")[-1] in ("as_tensor", "tensor", "full_like", "new_tensor") and c.args and isinstance(c.args[0], ast.Name) and c.args[0].id == val:
             return True
     return False
+
+
+# ---- C17-8 ---------------------------------------------------------------------------------------------------------
+def composite_prior_terms(idx: ProgramIndex, rep: Report):
+    """A prior over a structured value that is the product of independent parts returns the SUM of the parts' log densities, each reduced over
+    its own event: LKJCovariancePrior = LKJ density of the correlation matrix (one number per matrix) + the density of the n standard
+    deviations under sd_prior - with an element-wise sd_prior that is a vector of n terms, which has to be summed before it meets the
+    per-matrix term (otherwise log_prob has a spurious dimension and every consumer that sums it counts the LKJ term n times)."""
+    rep.rule("C17-8", "a prior that adds the log densities of independent parts reduces the element-wise part (the vector of standard deviations) over its event dimension before adding it to the per-matrix part")
+    C = idx.find_class("LKJCovariancePrior")
+    fi = idx.method(C, "log_prob", own=True)
+    sd_terms = [a for a in ast.walk(fi.node) if isinstance(a, ast.Assign) and isinstance(a.value, ast.Call) and chain(a.value.func) == "%s.sd_prior.log_prob" % fi.params[0] and isinstance(a.targets[0], ast.Name)]
+    if len(sd_terms) != 1:
+        raise AnalysisError("C17-8: LKJCovariancePrior.log_prob no longer evaluates self.sd_prior.log_prob(...) into a local (anchor vanished)")
+    nm = sd_terms[0].targets[0].id
+    reduced = any(isinstance(c, ast.Call) and isinstance(c.func, ast.Attribute) and c.func.attr == "sum" and isinstance(c.func.value, ast.Name) and c.func.value.id == nm for c in ast.walk(fi.node))
+    rep.add("C17-8", "%s:LKJCovariancePrior.log_prob[sd term]" % C.module.name, fi.where, reduced,
+            "the vector of sd terms is summed (when it is one) before it is added to the correlation term" if reduced else
+            "`%s = self.sd_prior.log_prob(marginal_sd)` is added to the per-matrix LKJ term as it is: with an element-wise sd_prior (the documented scalar prior) log_prob(Sigma) has shape (n,), entry i = lkj(corr) + p(sd_i), and the objective - which sums every entry - counts the LKJ density n times" % nm, {})
+    rep.floor("C17-8", "composite priors", 1, 1)
+
+
+# ---- C17-9 ---------------------------------------------------------------------------------------------------------
+def setters_convert_numbers(idx: ProgramIndex, rep: Report):
+    """The public setters accept python numbers: the value reaches `inverse_transform`, which for the default transforms is a torch function
+    of a tensor.  Every setter that hands its argument to inverse_transform converts non-tensors first (torch.as_tensor(value).to(raw)) - the
+    idiom of all but a few of them; the few raise TypeError for `kernel.var = 0.5`."""
+    rep.rule("C17-9", "every setter that hands its argument to inverse_transform converts python numbers to tensors first (torch.is_tensor / torch.as_tensor)")
+    n = 0
+    for fi in sorted(idx.all_functions(), key=lambda f: (f.module.name, f.qualname)):
+        if fi.cls is None or not fi.name.startswith("_set_") or len(fi.params) < 2:
+            continue
+        val = fi.params[1]
+        inv = [c for c in calls_in(fi.node) if isinstance(c.func, ast.Attribute) and c.func.attr == "inverse_transform" and any(isinstance(x, ast.Name) and x.id == val for a in c.args for x in ast.walk(a))]
+        if not inv:
+            continue
+        n += 1
+        converts = any(isinstance(c, ast.Call) and (chain(c.func) or "") in ("torch.as_tensor", "torch.tensor", "torch.is_tensor") and any(isinstance(x, ast.Name) and x.id == val for a in c.args for x in ast.walk(a)) for c in ast.walk(fi.node)) \
+            or any(isinstance(c, ast.Call) and isinstance(c.func, ast.Name) and c.func.id == "isinstance" and c.args and isinstance(c.args[0], ast.Name) and c.args[0].id == val for c in ast.walk(fi.node))
+        rep.add("C17-9", "%s:%s" % (fi.module.name, fi.qualname), fi.where, converts,
+                "non-tensors are converted before inverse_transform" if converts else
+                "`%s` receives the argument as it is: a python number raises TypeError in the default inverse transforms (expm1 / log of a float) - all other setters convert with torch.as_tensor(value).to(raw parameter) first" % " ".join(src(inv[0]).split())[:70], {})
+    rep.floor("C17-9", "setters that call inverse_transform", n, 25)
